@@ -13,6 +13,7 @@ import (
 	schema "github.com/jsightapi/jsight-schema-core"
 	"github.com/jsightapi/jsight-schema-core/notations/jschema"
 	"github.com/jsightapi/jsight-schema-core/openapi"
+	"github.com/jsightapi/jsight-schema-core/rules/enum"
 	"github.com/jsightapi/jsight-schema-core/verifhook"
 
 	"verif/harness/internal/core"
@@ -47,6 +48,30 @@ var apiTexts = map[string]string{
 	"usesHeir": `{"r": @heir}`,
 	// a type with two defective choices: four internal (unnamed) types, the first defect in source order is reported
 	"typeC": "{\n  \"p\": @n1 | @n2,\n  \"q\": @n3 | @n4\n}",
+}
+
+// regSupport registers a supporting text of a project on s: a user type, or - for names with the prefix "rule:" -
+// a named enum rule.
+// eachSupport visits the named rules first (a rule cannot be added once the schema has been loaded by AddType),
+// then the types in map order.
+func eachSupport(m map[string]string, f func(n, t string) bool) {
+	for n, t := range m {
+		if strings.HasPrefix(n, "rule:") && !f(n, t) {
+			return
+		}
+	}
+	for n, t := range m {
+		if !strings.HasPrefix(n, "rule:") && !f(n, t) {
+			return
+		}
+	}
+}
+
+func regSupport(s *jschema.JSchema, n, t string) error {
+	if strings.HasPrefix(n, "rule:") {
+		return s.AddRule(n[5:], enum.New(n[5:], t))
+	}
+	return s.AddType(n, jschema.New(n, t))
 }
 
 func apiBigText() string {
